@@ -104,3 +104,43 @@ pub open spec fn have_set(out: Seq<Codepoints>, range: Option<CodepointRange>, x
 pub open spec fn seen_vals(vals: Seq<int>, k: int, x: int) -> bool {
     exists|i: int| 0 <= i < k && #[trigger] vals[i] == x
 }
+
+// ---- composition (lemma over the contracts; the driver loops over Box<dyn UcdLineParser> themselves are not verified):
+// a set table generator that starts from the empty set and sees the rows one by one (contract of
+// UcdTableGen::process_entry / ViramaTableGen::process_entry), followed by get_codepoints_vector, emits a table that
+// denotes exactly the code points of the rows whose key matches.
+pub struct KeyedRow { pub lo: int, pub hi: int, pub matches: bool }
+pub open spec fn selected(rows: Seq<KeyedRow>, k: int, x: int) -> bool {
+    exists|i: int| 0 <= i < k && (#[trigger] rows[i]).matches && rows[i].lo <= x <= rows[i].hi
+}
+// one step: the post-state described by the process_entry contract
+pub open spec fn step_ok(before: Set<u32>, after: Set<u32>, r: KeyedRow) -> bool {
+    forall|x: u32| after.contains(x) <==> (before.contains(x) || (r.matches && r.lo <= x <= r.hi))
+}
+pub proof fn lemma_set_table_step(rows: Seq<KeyedRow>, k: int, before: Set<u32>, after: Set<u32>)
+    requires
+        0 <= k < rows.len(),
+        forall|x: u32| before.contains(x) <==> selected(rows, k, x as int),
+        step_ok(before, after, rows[k]),
+    ensures forall|x: u32| after.contains(x) <==> selected(rows, k + 1, x as int)
+{
+    assert forall|x: u32| after.contains(x) <==> selected(rows, k + 1, x as int) by {
+        if selected(rows, k, x as int) { let i = choose|i: int| 0 <= i < k && (#[trigger] rows[i]).matches && rows[i].lo <= x as int <= rows[i].hi; assert(0 <= i < k + 1); }
+        if rows[k].matches && rows[k].lo <= x as int <= rows[k].hi { assert(0 <= k < k + 1 && rows[k].matches); }
+        if selected(rows, k + 1, x as int) {
+            let i = choose|i: int| 0 <= i < k + 1 && (#[trigger] rows[i]).matches && rows[i].lo <= x as int <= rows[i].hi;
+            if i < k { assert(selected(rows, k, x as int)); }
+        }
+    }
+}
+pub proof fn lemma_set_table_final(rows: Seq<KeyedRow>, set: Set<u32>, table: Seq<Codepoints>)
+    requires
+        forall|x: u32| set.contains(x) <==> selected(rows, rows.len() as int, x as int),
+        // postcondition of get_codepoints_vector
+        well_formed(table),
+        forall|x: u32| covered(table, x as int) <==> set.contains(x),
+    ensures
+        searchable(table),
+        forall|x: u32| covered(table, x as int) <==> selected(rows, rows.len() as int, x as int),
+{
+}
